@@ -98,10 +98,16 @@ def suzuki(terms, order, t):
     return out + suzuki(terms, order - 2, (1 - 4 * p) * t) + out
 
 
-def h_qubit_op(env, words, nq, order, steps, control, time_mode, use_trotterize, ident, canary=False):
+def h_qubit_op(env, words, nq, order, steps, control, time_mode, use_trotterize, ident, canary=False, pi_multiples=None):
     from tangelo.toolboxes.operators import QubitOperator
     from tangelo.toolboxes.ansatz_generator.ansatz_utils import trotterize, get_exponentiated_qubit_operator_circuit
-    coefs = [env.real(f"c{i}", lo=-3, hi=3) for i in range(len(words))]
+    if pi_multiples is not None:
+        # concrete coefficients that are exact multiples of pi (whole and half turns of the Pauli rotation): a measure-zero set
+        # the symbolic shapes assume away at the skip threshold
+        import numpy as np
+        coefs = [float(k) * np.pi for k in pi_multiples]
+    else:
+        coefs = [env.real(f"c{i}", lo=-3, hi=3) for i in range(len(words))]
     op = QubitOperator()
     for w, c in zip(words, coefs):
         op.terms[w] = c
@@ -109,7 +115,10 @@ def h_qubit_op(env, words, nq, order, steps, control, time_mode, use_trotterize,
     if ident:
         c_id = env.real("cid", lo=-3, hi=3)
         op.terms[()] = c_id
-    if time_mode == "scalar":
+    if time_mode == "one":
+        time = 1.
+        times = {w: 1 for w in op.terms}
+    elif time_mode == "scalar":
         t = env.real("t", lo=-3, hi=3)
         time = t
         times = {w: t for w in op.terms}
@@ -176,7 +185,8 @@ def h_fermion_op(env, nq, mapping, order, steps, time_mode="scalar", canary=Fals
     a = env.real("a", lo=-2, hi=2)
     b = env.real("b", lo=-2, hi=2)
     # hermitian: a (p^q + q^p) + b n_r
-    terms = [(((0, 1), (1, 0)), a), (((1, 1), (0, 0)), a), (((2 % nq, 1), (2 % nq, 0)), b)]
+    # hopping 0<->1 and the occupation of orbital 1 do NOT commute (a product formula of order 1 and of order 2 differ)
+    terms = [(((0, 1), (1, 0)), a), (((1, 1), (0, 0)), a), (((1, 1), (1, 0)), b)]
     op = FermionOperator()
     for t_, c in terms:
         op += FermionOperator(t_, c)
@@ -282,6 +292,14 @@ def shapes(tier, seed):
         out.append(Shape(f"unitary/X0X1+Z0/o{o}s{s}/n{k}/ctl={c}/{m}/{'default' if d else 'arg'}", h_unitary,
                          dict(words=[((0, "X"), (1, "X")), ((0, "Z"),)], nq=2 + (c is not None), order=o, steps=s, n_steps=k, control=c,
                               method=m, via_default=d), modules=MODS + ("tangelo.toolboxes.unitary_generator.trotter_suzuki",)))
+    for ks in ((1, 0.5), (3, -1), (2, 1), (-1, 0.25), (0, 1)):
+        for control in (None, 2):
+            out.append(Shape(f"qubitop/pi-multiples/{ks}/ctl={control}", h_qubit_op,
+                             dict(words=[((0, "X"), (1, "X")), ((0, "Z"),)], nq=2 + (control is not None), order=1, steps=1, control=control,
+                                  time_mode="one", use_trotterize=True, ident=False, pi_multiples=ks), modules=MODS))
+    out.append(Shape("qubitop/pi-multiples/steps2", h_qubit_op,
+                     dict(words=[((0, "Y"),), ((0, "Z"), (1, "X"))], nq=2, order=2, steps=2, control=None, time_mode="one", use_trotterize=True,
+                          ident=True, pi_multiples=(4, 2)), modules=MODS))
     out.append(Shape("canary/qubitop/sign", h_qubit_op, dict(words=[((0, "X"), (1, "X")), ((0, "Z"),)], nq=2, order=1, steps=1,
                                                             control=None, time_mode="scalar", use_trotterize=True, ident=False, canary=True),
                      modules=MODS, canary=True))
